@@ -16,7 +16,7 @@
 (* every disagreement is reported with a reason, so that the harness can   *)
 (* attribute it to the property that speaks about that observable.         *)
 (***************************************************************************)
-EXTENDS Api, Order
+EXTENDS Api, Order, Diag
 
 Trace == ndJsonDeserialize("trace.ndjson")
 
@@ -93,7 +93,15 @@ CheckStages(ev) ==
        THEN (IF ev.stages = StagesOf(ev.fn, ev.e, ev.a) THEN {} ELSE {"stage-sequence"})
        ELSE {}
 
-Check(ev) == (IF ev.fn = "Satisfies" THEN CheckSatisfies(ev)
+\* the diagnostic text (drift note only); judged when the input is inside the vocabulary and free of foreign bytes
+NoForeign(x) == \A n \in 1..Len(x) : CharAt(x, n) # OtherCh
+CheckDiag(ev) ==
+  IF ev.panic \/ ev.fn = "ValidateLicenses" \/ ~ev.err THEN {}
+  ELSE IF ~(InOracle(ev.e) /\ AllInOracle(ev.a) /\ NoForeign(ev.e) /\ \A n \in DOMAIN ev.a : NoForeign(ev.a[n])) THEN {}
+  ELSE LET want == IF ev.fn = "Satisfies" THEN SatisfiesMsg(ev.e, ev.a) ELSE DiagOf(ev.e) IN
+       IF want # OkMsg /\ ev.msg # want THEN {"diagnostic"} ELSE {}
+
+Check(ev) == CheckDiag(ev) \cup (IF ev.fn = "Satisfies" THEN CheckSatisfies(ev)
               ELSE IF ev.fn = "ValidateLicenses" THEN CheckValidate(ev)
               ELSE IF ev.fn = "ExtractLicenses" THEN CheckExtract(ev)
               ELSE {"unknown-function"}) \cup CheckStages(ev)
